@@ -268,7 +268,9 @@ Inductive token :=
 | TR (j : nat) (choice : option nat)   (* one access of reader j (starts a snapshot() when idle) *)
 | TCrash                      (* the writer process dies where it is *)
 | TRestart                    (* a new daemon process runs ShmWriter::new *)
-| TNewReader.                 (* a client opens the segment (only when its header is valid) *)
+| TNewReader                  (* a client opens the segment (only when its header is valid) *)
+| TJump (v : Z).              (* testing device: the generation is set to v while no update is in
+                                 flight, standing for the publications that lead there *)
 
 Record mstate := mkm { m_w : wst; m_rs : list rst; m_nrec : nat; m_cfg : cfg }.
 
@@ -320,6 +322,13 @@ Definition m_step (m : mstate) (t : token) : mstate * list obs :=
   | TRestart =>
       match w_pc (m_w m) with
       | WDead => (mkm (w_restart c (m_w m)) (m_rs m) (m_nrec m) c, [])
+      | _ => (m, [OSkip])
+      end
+  | TJump v =>
+      match w_pc (m_w m) with
+      | WIdle | WDead =>
+          let w := m_w m in
+          (mkm (mkw (w_push w LGen v Rel KEven (w_att w)) (w_relview w) (w_pc w) (w_att w) (w_rec w)) (m_rs m) (m_nrec m) c, [])
       | _ => (m, [OSkip])
       end
   | TNewReader =>
